@@ -334,6 +334,23 @@ pub fn obs_schema<S: Serialize>(x: &S) -> Value {
 /// fail_at, zero_at, fail_flush).
 pub fn ser_with_schedule<S: Serialize>(x: &S, case: &Value) -> Value {
     let sk = &case["sink"];
+    if case["api"].as_str() == Some("schema") {
+        // serialize_with_schema under the same (direct) sink schedule
+        let mut sink = DirectSink::default();
+        sink.fail_at = opt_u(sk, "fail_at");
+        sink.reject_call = opt_u(sk, "reject_call");
+        sink.partial = u(sk, "partial");
+        sink.fail_flush = sk["fail_flush"].as_bool().unwrap_or(false);
+        let r = catch_unwind(AssertUnwindSafe(|| x.serialize_with_schema(&mut sink).map(|_| ())));
+        let mut s = match r {
+            Ok(Ok(())) => json!({"st": "ok", "detail": []}),
+            Ok(Err(e)) => ser_err(&e),
+            Err(p) => json!({"st": "panic", "detail": [], "msg": panic_msg(p)}),
+        };
+        s["out"] = bytes_json(&sink.out);
+        s["flushes"] = json!(sink.flushes);
+        return s;
+    }
     if sk["kind"].as_str().unwrap_or("direct") == "std" {
         let mut sink = StdSink::default();
         sink.chunks = usv(sk, "chunks");
